@@ -51,7 +51,7 @@ Proof. exact (close_releases gen_progs_async C11_gen_async_ok). Qed.
 Print Assumptions C11_close_releases_async.
 
 (* After a with-block exits for any reason — transport.open / channel.open / authentication / on_open
-   failing inside __enter__, the body raising, timing out (transport closed under it) or losing the
+   failing inside __enter__, the body raising, timing out (transport closed under it, or left open) or losing the
    device, on_close failing — nothing is held. *)
 Theorem C11_with_releases_sync :
   forall (e : env) (body : list step) (c : conn), released (fst (with_block gen_progs_sync e body c)).
@@ -62,6 +62,20 @@ Theorem C11_with_releases_async :
   forall (e : env) (body : list step) (c : conn), released (fst (with_block gen_progs_async e body c)).
 Proof. exact (with_releases gen_progs_async C11_gen_async_ok). Qed.
 Print Assumptions C11_with_releases_async.
+
+(* the same with Settings.NO_TERMINATE_ON_TIMEOUT: a timeout anywhere in the body that leaves the transport OPEN
+   (step SStallOpen) — an instance of the theorem above, stated because __exit__ then is the only thing that closes *)
+Theorem C11_with_releases_no_terminate_sync :
+  forall (e : env) (pre : list step) (t : tstate) (c : conn),
+    released (fst (with_block gen_progs_sync e (pre ++ [SStallOpen t]) c)).
+Proof. exact (fun e pre t c => with_releases gen_progs_sync C11_gen_sync_ok e (pre ++ [SStallOpen t]) c). Qed.
+Print Assumptions C11_with_releases_no_terminate_sync.
+
+Theorem C11_with_releases_no_terminate_async :
+  forall (e : env) (pre : list step) (t : tstate) (c : conn),
+    released (fst (with_block gen_progs_async e (pre ++ [SStallOpen t]) c)).
+Proof. exact (fun e pre t c => with_releases gen_progs_async C11_gen_async_ok e (pre ++ [SStallOpen t]) c). Qed.
+Print Assumptions C11_with_releases_no_terminate_async.
 
 (* For all histories of open / operate / close / re-open / with-blocks, from any state: right after
    every close() and every with-block nothing is held. *)
